@@ -1,327 +1,7 @@
-// Harness c05 (serves C05 and C07): probe version.
+// Harness c05: property C05 (chain database consistency after any history of block arrivals).
+// The machinery is shared with C07 in harness/c05lib (real ChainService, block-tree generators, oracles).
 package main
 
-import (
-	"context"
-	"encoding/hex"
-	"fmt"
-	"math/big"
-	"os"
-	"path/filepath"
-	"time"
+import "github.com/aergoio/aergo/v2/zz_verif/c05lib"
 
-	"github.com/aergoio/aergo-actor/actor"
-	"github.com/aergoio/aergo/v2/account/key"
-	crypto "github.com/aergoio/aergo/v2/account/key/crypto"
-	"github.com/aergoio/aergo/v2/chain"
-	"github.com/aergoio/aergo/v2/config"
-	"github.com/aergoio/aergo/v2/consensus"
-	"github.com/aergoio/aergo/v2/contract"
-	"github.com/aergoio/aergo/v2/contract/system"
-	"github.com/aergoio/aergo/v2/pkg/component"
-	"github.com/golang/protobuf/proto"
-	"github.com/aergoio/aergo/v2/state"
-	"github.com/aergoio/aergo/v2/types"
-	"github.com/aergoio/aergo/v2/types/message"
-	"github.com/aergoio/aergo/v2/zz_verif/vh"
-	"github.com/btcsuite/btcd/btcec/v2"
-	"github.com/rs/zerolog"
-)
-
-func hx(b []byte) string {
-	if len(b) == 0 {
-		return "-"
-	}
-	return hex.EncodeToString(b)
-}
-
-// ---------------------------------------------------------------- stub consensus (exported interface only)
-
-type stubCons struct {
-	cs       *chain.ChainService
-	lib      uint64            // NeedReorganization(rootNo) = rootNo >= lib   (dpos.Status.NeedReorganization)
-	badBlock map[string]bool   // IsBlockValid fails for these block hashes
-	updates  []string
-}
-
-func (s *stubCons) SetStateDB(sdb *state.ChainStateDB)        {}
-func (s *stubCons) IsTransactionValid(tx *types.Tx) bool      { return true }
-func (s *stubCons) VerifyTimestamp(block *types.Block) bool   { return true }
-func (s *stubCons) VerifySign(block *types.Block) error       { return nil }
-func (s *stubCons) IsBlockValid(block *types.Block, best *types.Block) error {
-	if s.badBlock[string(block.BlockHash())] {
-		return fmt.Errorf("scripted: block refused by consensus")
-	}
-	return nil
-}
-func (s *stubCons) Update(block *types.Block)                 { s.updates = append(s.updates, hx(block.BlockHash())) }
-func (s *stubCons) Save(tx consensus.TxWriter) error          { return nil }
-func (s *stubCons) NeedReorganization(rootNo types.BlockNo) bool { return rootNo >= s.lib }
-func (s *stubCons) Info() string                              { return "" }
-func (s *stubCons) GetType() consensus.ConsensusType          { return consensus.ConsensusSBP }
-func (s *stubCons) NeedNotify() bool                          { return true }
-func (s *stubCons) HasWAL() bool                              { return false }
-func (s *stubCons) IsForkEnable() bool                        { return true }
-// as dpos.DPoS.IsConnectedBlock / sbp: the block is in the chain DB
-func (s *stubCons) IsConnectedBlock(block *types.Block) bool {
-	_, err := s.cs.GetBlock(block.BlockHash())
-	return err == nil
-}
-func (s *stubCons) MakeConfChangeProposal(req *types.MembershipChange) (*consensus.ConfChangePropose, error) {
-	return nil, consensus.ErrNotSupportedMethod
-}
-
-// ---------------------------------------------------------------- recording component (stands for mempool, rpc, p2p, syncer)
-
-type recorder struct {
-	name string
-	hub  *component.ComponentHub
-	log  *[]string
-}
-
-func (r *recorder) GetName() string                   { return r.name }
-func (r *recorder) Start()                            {}
-func (r *recorder) Stop()                             {}
-func (r *recorder) Status() component.Status          { return component.StartedStatus }
-func (r *recorder) SetHub(hub *component.ComponentHub) { r.hub = hub }
-func (r *recorder) Hub() *component.ComponentHub      { return r.hub }
-func (r *recorder) MsgQueueLen() int32                { return 0 }
-func (r *recorder) Receive(actor.Context)             {}
-func (r *recorder) Tell(m interface{})                { r.rec(m) }
-func (r *recorder) Request(m interface{}, sender *actor.PID) { r.rec(m) }
-func (r *recorder) RequestFuture(m interface{}, timeout time.Duration, tip string) *actor.Future {
-	r.rec(m)
-	f := actor.NewFuturePrefix("verif", timeout)
-	f.PID().Tell(component.ErrHubUnregistered)
-	return f
-}
-func (r *recorder) rec(m interface{}) {
-	switch x := m.(type) {
-	case *message.MemPoolPut:
-		*r.log = append(*r.log, "put:"+hx(x.Tx.GetHash()))
-	case *message.MemPoolDel:
-		*r.log = append(*r.log, "del:"+hx(x.Block.BlockHash()))
-	case *message.SyncStart:
-		*r.log = append(*r.log, fmt.Sprintf("sync:%d", x.TargetNo))
-	case *message.NotifyNewBlock:
-		*r.log = append(*r.log, "notify:"+hx(x.Block.BlockHash()))
-	}
-}
-
-// ---------------------------------------------------------------- world
-
-type world struct {
-	keys  []*btcec.PrivateKey
-	addrs [][]byte
-	root  string // scratch root
-	nnode int
-}
-
-func newWorld(root string) *world {
-	w := &world{root: root}
-	seed := vh.NewRng(5)
-	for i := 0; i < 4; i++ {
-		k, _ := btcec.PrivKeyFromBytes(seed.Bytes(32))
-		w.keys = append(w.keys, k)
-		w.addrs = append(w.addrs, crypto.GenerateAddress(k.PubKey().ToECDSA()))
-	}
-	return w
-}
-
-func (w *world) genesis() *types.Genesis {
-	g := &types.Genesis{
-		ID:        types.ChainID{Version: 0, Magic: "c05.verif", PublicNet: false, MainNet: false, Consensus: "sbp"},
-		Timestamp: 1_600_000_000_000_000_000,
-		Balance:   map[string]string{},
-	}
-	for _, a := range w.addrs {
-		g.Balance[types.EncodeAddress(a)] = "1000000000000000000000"
-	}
-	return g
-}
-
-type node struct {
-	cs   *chain.ChainService
-	cons *stubCons
-	msgs []string
-	dir  string
-}
-
-func (w *world) initDir(dir string) {
-	os.RemoveAll(dir)
-	os.MkdirAll(dir, 0o755)
-	core, err := chain.NewCore("memorydb", dir, false, 0, &config.DBConfig{})
-	if err != nil {
-		panic(err)
-	}
-	if err := core.InitGenesisBlock(w.genesis(), false); err != nil {
-		panic(err)
-	}
-	core.Close()
-}
-
-func (w *world) newNode() *node {
-	w.nnode++
-	n := &node{dir: filepath.Join(w.root, fmt.Sprintf("n%d", w.nnode))}
-	w.initDir(n.dir)
-	cfg := config.NewServerContext("", "").GetDefaultConfig().(*config.Config)
-	cfg.DbType = "memorydb"
-	cfg.DataDir = n.dir
-	n.cs = chain.NewChainService(cfg)
-	n.cons = &stubCons{cs: n.cs, badBlock: map[string]bool{}}
-	n.cs.SetChainConsensus(n.cons)
-	hub := component.NewComponentHub()
-	for _, nm := range []string{message.MemPoolSvc, message.RPCSvc, message.P2PSvc, message.SyncerSvc} {
-		hub.Register(&recorder{name: nm, log: &n.msgs})
-	}
-	n.cs.SetHub(hub)
-	chain.VerifC05SetSkipMempool(n.cs, true)
-	return n
-}
-
-func (n *node) close() {
-	n.cs.BeforeStop()
-	os.RemoveAll(n.dir)
-}
-
-// producer: a Core (chain DB + state DB) with the same genesis; every produced block's state is committed into its
-// state store so that children can be built on any block
-type producer struct {
-	w    *world
-	core *chain.Core
-	sdb  *state.ChainStateDB
-	gen  *types.Block
-	ts   int64
-	bv   types.BlockVersionner
-}
-
-func (w *world) newProducer() *producer {
-	dir := filepath.Join(w.root, "producer")
-	w.initDir(dir)
-	p := &producer{w: w}
-	p.sdb = state.NewChainStateDB()
-	// reopen the state store written by initDir
-	core, err := chain.NewCore("memorydb", dir, false, 0, &config.DBConfig{})
-	if err != nil {
-		panic(err)
-	}
-	p.core = core
-	g := core.GetGenesisInfo()
-	p.gen = g.Block()
-	p.ts = g.Timestamp
-	p.bv = config.AllEnabledHardforkConfig
-	return p
-}
-
-type stubCcc struct{}
-
-func (stubCcc) MakeConfChangeProposal(req *types.MembershipChange) (*consensus.ConfChangePropose, error) {
-	return nil, consensus.ErrNotSupportedMethod
-}
-
-func (p *producer) transfer(from, to int, nonce uint64, amount int64, bi *types.BlockHeaderInfo) *types.Tx {
-	tx := &types.Tx{Body: &types.TxBody{
-		Nonce: nonce, Account: p.w.addrs[from], Recipient: p.w.addrs[to], Amount: big.NewInt(amount).Bytes(),
-		GasPrice: big.NewInt(0).Bytes(), Type: types.TxType_TRANSFER, ChainIdHash: bi.ChainIdHash(),
-	}}
-	key.SignTx(tx, p.w.keys[from])
-	return tx
-}
-
-// build a block on parent with these txs; returns the block and the error of the first failing tx (block then
-// carries the root reached so far)
-func (p *producer) build(parent *types.Block, mk func(bi *types.BlockHeaderInfo) []*types.Tx) (*types.Block, error) {
-	p.ts += 1000
-	bi := types.NewBlockHeaderInfoFromPrevBlock(parent, p.ts, p.bv)
-	sdb := p.core.VerifC05SDB()
-	bs := state.NewBlockState(sdb.OpenNewStateDB(parent.GetHeader().GetBlocksRootHash()), state.SetPrevBlockHash(parent.BlockHash()))
-	bs.SetGasPrice(system.GetGasPrice())
-	bs.Receipts().SetHardFork(config.AllEnabledHardforkConfig, bi.No)
-	txs := mk(bi)
-	exec := chain.NewTxExecutor(context.Background(), stubCcc{}, nil, bi, contract.ChainService)
-	var ferr error
-	for _, tx := range txs {
-		if err := exec(bs, types.NewTransaction(tx)); err != nil && ferr == nil {
-			ferr = err
-		}
-	}
-	if err := bs.Update(); err != nil {
-		panic(err)
-	}
-	if err := bs.Commit(); err != nil {
-		panic(err)
-	}
-	blk := types.NewBlock(bi, bs.GetRoot(), bs.Receipts(), txs, nil, nil)
-	blk.BlockHash()
-	return blk, ferr
-}
-
-func main() {
-	zerolog.SetGlobalLevel(zerolog.Disabled)
-	run := vh.Start("c05", "probe")
-	w := newWorld(filepath.Join(run.Out, "nodes"))
-	p := w.newProducer()
-	t0 := time.Now()
-	n := w.newNode()
-	fmt.Println("newNode", time.Since(t0))
-	// main chain a1 a2; side b1 b2 b3 from genesis
-	nonce := map[int]uint64{}
-	mk := func(from, to int, k uint64) func(bi *types.BlockHeaderInfo) []*types.Tx {
-		return func(bi *types.BlockHeaderInfo) []*types.Tx { return []*types.Tx{p.transfer(from, to, k, 5, bi)} }
-	}
-	_ = nonce
-	a1, e := p.build(p.gen, mk(0, 1, 1))
-	fmt.Println("a1", e)
-	a2, e := p.build(a1, mk(0, 1, 2))
-	fmt.Println("a2", e)
-	b1, e := p.build(p.gen, mk(1, 2, 1))
-	b2, e := p.build(b1, mk(1, 2, 2))
-	// b2bad: same content, wrong claimed state root
-	b2bad := proto.Clone(b2).(*types.Block)
-	b2bad.Header.BlocksRootHash = append([]byte{}, a1.Header.BlocksRootHash...)
-	b2bad.Hash = nil
-	b2bad.BlockHash()
-	// b3 on b2bad (state = b2's real state)
-	fake := proto.Clone(b2).(*types.Block)
-	fake.Hash = b2bad.BlockHash()
-	b3, e := p.build(fake, mk(1, 2, 3))
-	a3, e := p.build(a2, mk(0, 1, 3))
-	for _, b := range []*types.Block{a1, a2, b1, b2bad, b3, a3, a3} {
-		t0 = time.Now()
-		err := chain.VerifC05AddBlock(n.cs, b, "peer")
-		best, _ := n.cs.GetBestBlock()
-		fmt.Println("add", b.BlockNo(), err, "best", best.BlockNo(), hx(best.BlockHash())[:8], "root", hx(n.cs.SDB().GetRoot())[:8], "bestroot", hx(best.GetHeader().GetBlocksRootHash())[:8])
-	}
-	fmt.Println("b1 root", hx(b1.Header.BlocksRootHash)[:8])
-	{
-		n2 := w.newNode()
-		x, e := p.build(p.gen, mk(0, 1, 7)) // nonce too high
-		fmt.Println("x build err", e)
-		y, e := p.build(p.gen, func(bi *types.BlockHeaderInfo) []*types.Tx {
-			tx := p.transfer(0, 1, 1, 5, bi)
-			tx.Body.Sign[9] ^= 0x40
-			tx.Hash = tx.CalculateTxHash()
-			return []*types.Tx{tx}
-		})
-		fmt.Println("y build err", e)
-		n3 := w.newNode()
-		fmt.Println("fresh node: add y (bad signature):", chain.VerifC05AddBlock(n3.cs, y, "peer"))
-		fmt.Println("n2: add x (bad nonce):", chain.VerifC05AddBlock(n2.cs, x, "peer"))
-		fmt.Println("n2: add y (bad signature):", chain.VerifC05AddBlock(n2.cs, y, "peer"))
-		best, _ := n2.cs.GetBestBlock()
-		fmt.Println("n2 best", best.BlockNo())
-		z, _ := p.build(y, mk(2, 1, 1))
-		fmt.Println("n2: add z (valid child of y):", chain.VerifC05AddBlock(n2.cs, z, "peer"))
-	}
-	t0 = time.Now()
-	n.close()
-	fmt.Println("close", time.Since(t0))
-	t0 = time.Now()
-	for i := 0; i < 200; i++ {
-		n := w.newNode()
-		chain.VerifC05AddBlock(n.cs, a1, "peer")
-		n.close()
-	}
-	fmt.Println("200 nodes", time.Since(t0))
-	run.Finish()
-}
+func main() { c05lib.Main("C05") }
